@@ -556,15 +556,26 @@ def gen_caller_headers(rng, via_client, allow_auth):
         hd.insert(rng.randrange(len(hd) + 1),
                   ("Content-Encoding", rng.choice(["gzip", "gzip", "deflate", "deflate", "identity", "br"])))
     if allow_auth and rng.random() < 0.08:
-        hd.append((rng.choice(["Authorization", "authorization"]), "Bearer " + gen_value(rng)[:20].replace(" ", "")))
+        hd.append((rng.choice(["Authorization", "authorization"]), ("Bearer " + gen_value(rng)[:20].replace(" ", "").replace("\t", "")).strip()))
     return hd
 
 
-def gen_cookie_events(rng):
-    evs = []
+def default_cookie_path(req_path):
+    p = req_path[:req_path.rfind("/")]
+    return p or "/"
+
+
+def gen_cookie_events(rng, req_path):
+    """Events of ONE response: no two about the same (path, name) - http.cookiejar applies the
+    expiries of a response before its sets, an order no server should rely on."""
+    evs, keys = [], set()
     for _ in range(rng.choice([1, 1, 2, 3])):
         name = rng.choice([b"sid", b"a", b"B2"])
         path = rng.choice([None, None, None, "/svc", "/other", "/", "/svc/a"])
+        key = (path if path is not None else default_cookie_path(req_path), name)
+        if key in keys:
+            continue
+        keys.add(key)
         if rng.random() < 0.25:
             evs.append(("exp", path, name))
         else:
@@ -606,7 +617,7 @@ def gen_step(rng, via, cookies, challenge, allow_auth, status=None):
         elif r < 0.46 and via is None:
             st["ce"] = rng.choice([b"identity", b"br"])
     if cookies and 200 <= st["status"] < 300 and rng.random() < 0.75:
-        st["cookies"] = gen_cookie_events(rng)
+        st["cookies"] = gen_cookie_events(rng, st["path"])
     return st
 
 
@@ -624,14 +635,17 @@ def gen_session(rng, clients_n, status=None, kind=None):
     has_creds = user is not None and pw is not None
     cookies = rng.random() < 0.45
     n = rng.choice([2, 3, 4, 5, 5]) if cookies else rng.choice([1, 1, 1, 2])
-    via_client = rng.random() < 0.3
+    # one client per session: a transport's options can be linked to one client only
+    via = rng.randrange(clients_n) if rng.random() < 0.3 else None
+    if status is not None and not (200 <= status < 300):
+        via = None     # through a client an error status surfaces as _SoapClient's own Exception((status, reason))
     steps = []
     for _ in range(n):
-        via = rng.randrange(clients_n) if via_client else None
         if kind == "TChallenge" and has_creds:
             challenge = rng.random() < 0.6
         else:
-            challenge = rng.random() < 0.04
+            # (through a client the 401 would surface as _SoapClient's own Exception((401, reason)))
+            challenge = via is None and rng.random() < 0.04
         steps.append(gen_step(rng, via, cookies, challenge, allow_auth=not (has_creds and kind != "TPlain"),
                               status=status))
     return {"kind": kind, "user": user, "pw": pw, "steps": steps}
@@ -656,6 +670,7 @@ def gen_quirk(rng, cat, clients_n):
     s = gen_session(rng, clients_n, kind=kind)
     for st in s["steps"]:
         st["cookies"] = []
+        st["challenge"] = None
         st["hdrs"] = [(k, v) for k, v in st["hdrs"] if k.lower() not in ("content-encoding", "authorization")]
     st0 = s["steps"][0]
     if cat == "ce-name-or-value-case":
@@ -749,3 +764,593 @@ def cache_https_context():
         return cache[http_version]
     cached._c15_cached = True
     http.client._create_https_context = cached
+
+
+# ---------------------------------------------------------------------------
+# small families
+# ---------------------------------------------------------------------------
+
+def impl_authorization(user, pw):
+    """What http.HttpAuthenticated.addcredentials puts into the headers of a Request."""
+    from suds.transport import Request
+    from suds.transport.http import HttpAuthenticated
+    t = HttpAuthenticated(username=user, password=pw)
+    r = Request("http://h.invalid/x", b"")
+    t.addcredentials(r)
+    v = r.headers.get("Authorization")
+    if isinstance(v, str):
+        return v.encode("latin-1", "replace")
+    if isinstance(v, bytes):
+        return v
+    return None
+
+
+def gen_cred_pairs(ck):
+    rng = ck.rng
+    pairs = [("u", "p"), ("", ""), ("u", ""), ("", "p"), ("u", ">>?"), ("u", "~~~"), ("a", "b:c"), ("ü", "pä€"),
+             ("user", "p:w:"), ("Aladdin", "open sesame"), ("\U0001f600", "\U0010ffff"), ("x" * 80, "y" * 81)]
+    for k in range(64):
+        pairs.append(("a", chr(64 + k)))
+    if ck.tier == "thorough":
+        asc = [chr(c) for c in range(0x20, 0x7f)]
+        pairs += [(u, p) for u in asc if u != ":" for p in asc]
+        n = 12000
+    else:
+        n = 2500
+    for _ in range(n):
+        pairs.append((gen_text(rng, colon=False), gen_text(rng)))
+    return pairs
+
+
+class _Raise(object):
+    """urlopener stand-in raising / returning what it is told to."""
+
+    def __init__(self, exc=None, ret=None):
+        self.exc, self.ret, self.timeout = exc, ret, "unset"
+
+    def open(self, u2request, timeout=None):
+        self.timeout = timeout
+        if self.exc is not None:
+            raise self.exc
+        return self.ret
+
+
+class _Through(object):
+    """urlopener stand-in delegating to the opener the transport would have built, remembering
+    the exception (object) urllib raised, also the one raised later by reading the response."""
+
+    def __init__(self, transport):
+        self.transport, self.raised = transport, None
+
+    def open(self, u2request, timeout=None):
+        import urllib.request
+        outer = self
+        try:
+            fp = urllib.request.build_opener(*self.transport.u2handlers()).open(u2request, timeout=timeout)
+        except Exception as e:   # noqa
+            self.raised = e
+            raise
+
+        class Fp(object):
+            def __getattr__(self, name):
+                return getattr(fp, name)
+
+            def read(self, *a):
+                try:
+                    return fp.read(*a)
+                except Exception as e:   # noqa
+                    outer.raised = e
+                    raise
+        return Fp()
+
+
+def ms(t):
+    return None if t is None else int(round(t * 1000))
+
+
+FAULTS = ["refused", "rst-at-accept", "close-at-accept", "close-after-request", "rst-after-request",
+          "partial-headers", "partial-body", "rst-mid-body", "garbage", "stall-before-response", "stall-mid-body"]
+
+
+# ---------------------------------------------------------------------------
+# the check
+# ---------------------------------------------------------------------------
+
+PART_KEYS = [
+    ("x_part_ok 0%N", "C15:request-body-altered", "the body the server received does not decode to the envelope bytes"),
+    ("x_part_ok 1%N", "C15:request-headers-lost", "a caller header / Content-Type / SOAPAction did not reach the server as given"),
+    ("x_part_ok 2%N", "C15:cookies-not-returned", "the Cookie header is not the set of live cookies earlier responses set"),
+    ("x_part_ok 3%N", "C15:credentials-on-the-wire", "the server cannot recover the configured username/password from Authorization"),
+    ("x_part_ok 4%N", "C15:reply-or-error-altered", "the caller did not get the reply body / TransportError(status, body) the server sent"),
+]
+
+
+def cred_key(header):
+    """Finding class of an Authorization value a standard server cannot decode."""
+    if header is not None and (b"-" in header[6:] or b"_" in header[6:]):
+        return "C15:urlsafe-base64-credentials"
+    return "C15:credentials-not-recoverable"
+
+
+def run(ck):
+    common.force_repo_path()
+    from tools import gen_tables
+    cache_https_context()
+    ck.trusted = [
+        "Coq 8.16.1 kernel + vm_compute (correspondence evaluation); no native_compute",
+        "tools/tables_c15.py: base64 alphabet / scheme prefix (addcredentials called on the 64 single-sextet "
+        "credentials) and the default SOAP headers (_SoapClient.__headers called) regenerated from /repo",
+        "correspondence harness harness/c15.py: loopback HTTP server (raw sockets, own request parser), generators, "
+        "interning of byte strings as numbers (equal number <-> equal bytes), Python's gzip/zlib as decompression oracle",
+        "modelled, validated by correspondence only: urllib.request (header capitalisation, 2xx vs HTTPError, Basic "
+        "challenge retry), http.client (wire format), http.cookiejar (default policy), sockets",
+        "http.client._create_https_context is cached in the harness process (speed; HTTPS is not exercised)",
+    ]
+    ck.notes = [
+        "partial: sockets, urllib, cookie policy and real timeouts are run-time behaviour; the model states them and "
+        "the loopback correspondence checks them, the theorems do not cover the standard library's code",
+        "credentials are recoverable only for usernames without ':' (RFC 7617); usernames with ':' are exercised "
+        "for model agreement only",
+        "header names the standard library owns (Content-Length, Host, Connection, Transfer-Encoding, Cookie, Expect) "
+        "are not generated as caller headers",
+        "HTTPS (suds.transport.https over TLS) and proxies are not exercised",
+    ]
+    try:
+        gen_tables.generate("C15Tables")
+    except BaseException as e:   # noqa  (a generator must never stop the check)
+        ck.notes.append("table generation raised %r" % (e,))
+    proof_ok = ck.prove(THEOREMS)
+    common.make(["C15/Model.vo"])
+
+    rng = ck.rng
+    thorough = ck.tier == "thorough"
+    server = Loopback()
+    server.start()
+    blobs = Blobs()
+    disagree = {}
+
+    # ---- 1. credentials alone ------------------------------------------------
+    pairs = gen_cred_pairs(ck)
+    ccases, cmeta = [], []
+    for u, p in pairs:
+        try:
+            h = impl_authorization(u, p)
+        except Exception as e:   # noqa
+            h = None
+        ccases.append("(%s, %s, %s)" % (cstr(u), cstr(p), copt(cbytes(h) if h is not None else None, "bytes")))
+        cmeta.append((u, p, h))
+        ck.seen(("cred", u, p), nontrivial=bool(u or p))
+        ck.count("credentials")
+    ck.sample({"credentials": [pairs[20][0], pairs[20][1]], "header": (cmeta[20][2] or b"").decode("latin-1")})
+    res = ck.run_cases("cred", PRE, "ccase", ccases, ["cred_agrees", "cred_spec_ok"], shard=500)
+    for i in res["cred_spec_ok"]:
+        u, p, h = cmeta[i]
+        ck.failing_input(cred_key(h), "credentials (%r, %r) are sent as %r: a standard Basic decoder does not recover them"
+                         % (u, p, h), {"family": "cred", "user": u, "pw": p, "header": (h or b"").decode("latin-1"),
+                                       "how": "suds.transport.http.HttpAuthenticated(username=user, password=pw)"
+                                              ".addcredentials(request); request.headers['Authorization']"})
+    bad = [cmeta[i] for i in res["cred_agrees"] if i not in set(res["cred_spec_ok"])]
+    if bad:
+        disagree["credentials"] = [(u, p, repr(h)) for u, p, h in bad[:5]]
+    # usernames containing ':' - agreement only
+    qpairs = [(gen_text(rng, colon=False) + ":" + gen_text(rng), gen_text(rng)) for _ in range(200)]
+    qcases = []
+    for u, p in qpairs:
+        try:
+            h = impl_authorization(u, p)
+        except Exception:   # noqa
+            h = None
+        qcases.append("(%s, %s, %s)" % (cstr(u), cstr(p), copt(cbytes(h) if h is not None else None, "bytes")))
+        ck.seen(("cred", u, p))
+        ck.count("credentials-colon-in-username")
+    resq = ck.run_cases("credq", PRE, "ccase", qcases, ["cred_agrees", "cred_spec_ok"], shard=500)
+    if resq["cred_agrees"]:
+        disagree["credentials-colon"] = [qpairs[i] for i in resq["cred_agrees"][:5]]
+    debatable = {}
+    if len(resq["cred_spec_ok"]) > 0:
+        debatable["C15:colon-in-username"] = {"count": len(resq["cred_spec_ok"]), "example": list(qpairs[resq["cred_spec_ok"][0]])}
+
+    # ---- 2. sessions through the loopback server --------------------------------
+    try:
+        clients = make_clients()
+    except Exception as e:   # noqa
+        clients = []
+        ck.notes.append("could not build the WSDL clients: %r" % (e,))
+    nsess = 3000 if thorough else 520
+    sessions = []
+    for _ in range(nsess):
+        sessions.append(gen_session(rng, len(clients)) if clients else gen_session(rng, 1, kind=None))
+    if thorough:
+        # every status 200..599 through every transport class
+        for status in range(200, 600):
+            for kind in KINDS:
+                s = gen_session(rng, len(clients) or 1, status=status, kind=kind)
+                s["steps"] = s["steps"][:2]
+                sessions.append(s)
+    else:
+        for status in rng.sample(range(200, 600), 60):
+            sessions.append(gen_session(rng, len(clients) or 1, status=status))
+    if not clients:
+        for s in sessions:
+            for st in s["steps"]:
+                st["via"] = None
+    xcases, xobs = [], []
+    for s in sessions:
+        obs = run_session(server, s, clients)
+        xobs.append(obs)
+        xcases.append(c_xcase(s, obs, clients, blobs))
+        for st, ob in zip(s["steps"], obs):
+            ck.seen(("x", s["kind"], s["user"], s["pw"], st["path"], tuple(st["hdrs"]), ob["msg"], st["status"],
+                     st["ce"], st["body"], tuple(st["cookies"])), nontrivial=True)
+            ck.count("exchange-%s" % s["kind"])
+            ck.count("status-%dxx" % (st["status"] // 100))
+            if st["via"] is not None:
+                ck.count("exchange-through-client")
+            if len(ob["msg"]) >= 32768 or len(st["body"]) >= 32768:
+                ck.count("body>=32KiB")
+            if any(k == "Content-Encoding" and v in ("gzip", "deflate") for k, v in st["hdrs"]):
+                ck.count("request-compressed")
+            if st["ce"] in (b"gzip", b"deflate"):
+                ck.count("reply-compressed")
+            if st["cookies"]:
+                ck.count("reply-sets-cookies")
+            if ob["conns"] == 2:
+                ck.count("challenge-answered")
+    ck.sample({"session": session_payload(sessions[3])["steps"][0]["hdrs"], "kind": sessions[3]["kind"],
+               "observed": describe_obs(xobs[3][0])})
+    preds = ["x_agrees", "x_spec_ok"] + [p for p, _, _ in PART_KEYS]
+    resx = ck.run_cases("x", PRE, "xcase", xcases, preds, shard=60)
+    spec_bad = set(resx["x_spec_ok"])
+    for i in sorted(spec_bad):
+        key, what = "C15:exchange", "an exchange does not meet the property"
+        for pname, k, w in PART_KEYS:
+            if i in resx[pname]:
+                key, what = k, w
+                break
+        s = sessions[i]
+        if key == "C15:credentials-on-the-wire":
+            auth = [v for ob in xobs[i] for k, v in ob["headers"] if k.lower() == b"authorization"]
+            if auth and cred_key(auth[-1]) == "C15:urlsafe-base64-credentials":
+                key = "C15:urlsafe-base64-credentials"
+        pl = session_payload(s)
+        pl["observed"] = [describe_obs(o) for o in xobs[i]]
+        ck.failing_input(key, "%s (transport %s, %d step(s))" % (what, s["kind"], len(s["steps"])), pl)
+    xdis = [i for i in resx["x_agrees"] if i not in spec_bad]
+    if xdis:
+        disagree["sessions"] = [dict(session_payload(sessions[i]), observed=[describe_obs(o) for o in xobs[i]])
+                                for i in xdis[:3]]
+
+    # ---- 3. debatable behaviours: model agreement only --------------------------
+    qsess, qcat = [], []
+    for cat in QUIRKS:
+        for _ in range(40 if thorough else 12):
+            qsess.append(gen_quirk(rng, cat, len(clients) or 1))
+            qcat.append(cat)
+    if not clients:
+        for s in qsess:
+            for st in s["steps"]:
+                st["via"] = None
+    qx, qobs = [], []
+    for s in qsess:
+        obs = run_session(server, s, clients)
+        qobs.append(obs)
+        qx.append(c_xcase(s, obs, clients, blobs))
+        for st in s["steps"]:
+            ck.seen(("q", s["kind"], s["user"], s["pw"], tuple(st["hdrs"]), st["msg"], st["body"], st["status"]))
+            ck.count("debatable-" + qcat[len(qx) - 1])
+    resq2 = ck.run_cases("quirk", PRE, "xcase", qx, ["x_agrees", "x_spec_ok"], shard=60)
+    if resq2["x_agrees"]:
+        disagree["debatable-sessions"] = [dict(session_payload(qsess[i]), category=qcat[i],
+                                               observed=[describe_obs(o) for o in qobs[i]])
+                                          for i in resq2["x_agrees"][:3]]
+    for i in resq2["x_spec_ok"]:
+        key = QUIRKS[qcat[i]]
+        if key is None:
+            continue
+        d = debatable.setdefault(key, {"count": 0, "example": session_payload(qsess[i])})
+        d["count"] += 1
+        if key in ck.known:
+            # reported only when the maintainers have listed the class as a known finding
+            ck.failing_input(key, "debatable behaviour %s" % qcat[i], session_payload(qsess[i]))
+    ck.extra["debatable_behaviours_observed"] = {k: v["count"] for k, v in debatable.items()}
+
+    run_small_families(ck, server, clients, blobs, disagree)
+
+    ck.rule = ("credentials: %d (user, password) pairs over printable Unicode incl. astral, all 64 last-sextets, the 3 "
+               "padding lengths%s; sessions: 1-5 requests through HttpTransport / http.HttpAuthenticated / "
+               "https.HttpAuthenticated against a loopback server, bodies 0..64 KiB (random, non-UTF-8, CRLFCRLF/NUL), "
+               "header maps over token names, gzip/deflate both ways, Set-Cookie set/replace/expire/other-path, "
+               "statuses 200..599%s, Basic challenge; injected HTTPError for every code 100..599 via send and open; "
+               "socket faults at %d phases; URLs with non-ASCII characters at every position class (str and bytes, "
+               "Request / transport.send / client call); timeout combinations. distinct = distinct input tuple; "
+               "non-trivial = everything except the empty credential pair"
+               % (len(pairs), ", every pair of printable ASCII characters" if thorough else "",
+                  " (every status x every transport class)" if thorough else " (sampled)", len(FAULTS)))
+    ck.exhaustive = False
+    server.stop = True
+    if server.errors:
+        ck.extra["loopback_server_errors"] = server.errors[:5]
+
+    if not proof_ok:
+        ck.unproved("proof obligation of C15 no longer checks: " + ck.proof_log[-1500:],
+                    {"theorems": THEOREMS, "log": ck.proof_log[-3000:]})
+    if disagree:
+        ck.unproved("model/implementation correspondence of C15 no longer holds (the implementation meets the "
+                    "executable specification on every generated input, but it is no longer the algorithm the "
+                    "theorems are about)", {"correspondence": "C15 agrees", "disagreements": disagree})
+
+
+class _Sent(Exception):
+    pass
+
+
+class _Odd(Exception):
+    pass
+
+
+def run_small_families(ck, server, clients, blobs, disagree):
+    import email.message
+    import http.client
+    import urllib.error
+    from suds.transport import Request
+    rng = ck.rng
+    thorough = ck.tier == "thorough"
+    url = server.base + "/svc"
+
+    def some_transport():
+        k = rng.choice(KINDS)
+        return k, make_transport(k, *(("u", "p") if rng.random() < 0.5 else (None, None)))
+
+    # ---- 4. what the opener did -> what the caller gets ---------------------------
+    ecases, emeta = [], []
+
+    def add_e(meth, outcome_c, res, exc_id, meta):
+        ecases.append("(%s, %s, %s)" % (meth, outcome_c, c_result(res, blobs, exc_id)))
+        emeta.append(meta)
+        ck.seen(("e",) + tuple(meta[:4]))
+
+    # 4a. injected HTTPError, every code
+    for code in range(100, 600):
+        for meth in ("MSend", "MOpen"):
+            kind, t = some_transport()
+            body = b"error body %d \xff\x00" % code if code % 7 else b""
+            exc = urllib.error.HTTPError(url, code, "Reason %d" % code, email.message.Message(), io.BytesIO(body))
+            t.urlopener = _Raise(exc=exc)
+            if meth == "MSend":
+                res = classify(lambda: t.send(Request(url, b"<m/>")))
+            else:
+                res = classify(lambda: t.open(Request(url)))
+            add_e(meth, "(OHttpError %s %s)" % (cN(code), blobs.c(body)), res, None,
+                  ("httperror", meth, code, kind, body.hex()))
+            ck.count("injected-HTTPError")
+    # 4b. injected other exceptions
+    mk = [lambda: urllib.error.URLError("unreachable"), lambda: socket.timeout("timed out"),
+          lambda: ConnectionResetError(104, "reset"), lambda: http.client.RemoteDisconnected("closed"),
+          lambda: ValueError("bad"), lambda: KeyError("k"), lambda: OSError(5, "io"),
+          lambda: http.client.IncompleteRead(b"ab", 5), lambda: _Odd("odd"), lambda: http.client.BadStatusLine("x"),
+          lambda: UnicodeError("u"), lambda: urllib.error.ContentTooShortError("short", b"")]
+    eid = 10
+    for f in mk:
+        for meth in ("MSend", "MOpen"):
+            kind, t = some_transport()
+            exc = f()
+            eid += 1
+            t.urlopener = _Raise(exc=exc)
+            if meth == "MSend":
+                res = classify(lambda: t.send(Request(url, b"<m/>")))
+            else:
+                res = classify(lambda: t.open(Request(url)))
+            same = res[0] == "exc" and res[1] is exc
+            add_e(meth, "(OFail %s)" % cN(eid), res, eid if same else eid + 5000,
+                  ("exception", meth, type(exc).__name__, kind, ""))
+            ck.count("injected-exception")
+    # 4c. real socket faults
+    reps = 4 if thorough else 2
+    for fault in FAULTS:
+        for _ in range(reps if not fault.startswith("stall") else max(1, reps // 2)):
+            kind, t = some_transport()
+            thr = _Through(t)
+            t.urlopener = thr
+            eid += 1
+            body = gen_bytes(rng)[:5000] + b"0123456789"
+            msg = gen_bytes(rng)
+
+            def script(phase, rec, fault=fault, body=body):
+                if phase == "accept":
+                    return Resp(fault=fault) if fault.endswith("at-accept") else None
+                return Resp(200, [], body, fault=fault)
+            server.begin(script)
+            target = url if fault != "refused" else "http://127.0.0.1:%d/svc" % closed_port()
+            tmo = 0.2 if fault.startswith("stall") else 5
+            res = classify(lambda: t.send(Request(target, msg, tmo)))
+            if thr.raised is None and res[0] == "reply":
+                ck.count("socket-fault-tolerated-by-http.client")     # e.g. truncated header block: no failure at all
+                continue
+            same = res[0] == "exc" and res[1] is thr.raised
+            add_e("MSend", "(OFail %s)" % cN(eid), res, eid if same else eid + 5000,
+                  ("fault", fault, repr(res[1])[:80] if len(res) > 1 else "", kind, ""))
+            ck.count("socket-fault-" + fault)
+    # 4d. open() over the wire
+    for status in [200, 200, 201, 204, 301, 304, 400, 401, 404, 500, 503] + [rng.randrange(200, 600) for _ in range(20)]:
+        kind, t = some_transport()
+        body = b"" if status in NO_BODY_STATUS else gen_bytes(rng)
+        server.begin(lambda phase, rec, status=status, body=body: None if phase == "accept" else Resp(status, [], body))
+        res = classify(lambda: t.open(Request(url)))
+        got_get = bool(server.requests) and server.requests[-1]["line"].startswith(b"GET /svc ")
+        oc = ("(OResp None %s None None)" % blobs.c(body)) if 200 <= status < 300 else \
+            "(OHttpError %s %s)" % (cN(status), blobs.c(body))
+        add_e("MOpen", oc, res if got_get else ("weird", "not a GET"), None, ("open", "MOpen", status, kind, body.hex()))
+        ck.count("open-over-the-wire")
+    ck.sample({"fault": emeta[-40][1], "caller_got": emeta[-40][2]})
+    rese = ck.run_cases("err", PRE, "ecase", ecases, ["err_agrees", "err_spec_ok"], shard=400)
+    for i in rese["err_spec_ok"]:
+        m = emeta[i]
+        if m[0] in ("httperror", "open"):
+            ck.failing_input("C15:http-error-mapping", "HTTP status %s through %s does not surface as TransportError(status, body)"
+                             % (m[2], m[1]), {"family": "err", "case": list(m)})
+        else:
+            ck.failing_input("C15:failure-not-propagated", "a non-HTTP failure (%s %s) does not reach the caller unchanged"
+                             % (m[1], m[2]), {"family": "err", "case": list(m)})
+    bad = [emeta[i] for i in rese["err_agrees"] if i not in set(rese["err_spec_ok"])]
+    if bad:
+        disagree["outcomes"] = [list(m) for m in bad[:5]]
+
+    # ---- 5. URLs -------------------------------------------------------------------
+    ucases, umeta = [], []
+    safe = "abcdefghijklmnopqrstuvwxyzABCDEFGHIJKLMNOPQRSTUVWXYZ0123456789/_.-~"
+    reply = REPLY_XML % b"ok"
+
+    def ures_of(fn):
+        try:
+            v = fn()
+        except UnicodeError:
+            return "UUnicodeError"
+        except Exception:   # noqa
+            return "UOtherError"
+        return "(UOk %s)" % cstr(v) if isinstance(v, str) else "UOtherError"
+
+    n_url = 1500 if thorough else 320
+    for j in range(n_url):
+        mode = rng.choice(["ctor", "ctor", "send", "send", "client"]) if clients else rng.choice(["ctor", "send"])
+        r = rng.random()
+        tail = "".join(rng.choice(safe) for _ in range(rng.randrange(0, 12)))
+        if r < 0.55:
+            bad_part = gen_text(rng, maxlen=6)
+            if all(ord(c) < 128 for c in bad_part):
+                bad_part += rng.choice("é€\x80ÿ\U0001f600ß")
+            where = rng.randrange(4)
+            if where == 0:
+                u = server.base + "/u/" + tail + bad_part
+            elif where == 1:
+                u = server.base + "/" + bad_part + "/" + tail
+            elif where == 2:
+                u = server.base + "/u/" + tail + "?q=" + bad_part
+            else:
+                u = "http://" + bad_part + ".invalid:%d/" % server.port + tail if mode == "ctor" else \
+                    server.base + "/u#" + bad_part
+        elif r < 0.85 or mode != "ctor":
+            u = server.base + "/u/" + tail + ("?a=" + tail if rng.random() < 0.3 else "")
+        else:
+            u = "".join(chr(rng.randrange(0, 128)) for _ in range(rng.randrange(0, 20)))
+        as_bytes = mode != "client" and rng.random() < 0.35
+        val = u
+        if as_bytes:
+            try:
+                val = u.encode(rng.choice(["utf-8", "latin-1"]))
+            except UnicodeError:
+                val = u.encode("utf-8")
+        units = list(val) if as_bytes else [ord(c) for c in val]
+        ascii_ = all(x < 128 for x in units)
+        server.begin(lambda phase, rec: None if phase == "accept" else Resp(200, [], reply))
+        attempted = False
+        if mode == "ctor":
+            ur = ures_of(lambda: Request(val).url)
+        elif mode == "send":
+            ur = ures_of(lambda: Request(val).url)
+            attempted = True
+            t = make_transport(rng.choice(KINDS), None, None)
+            classify(lambda: t.send(Request(val, b"<m/>")))
+        else:
+            attempted = True
+            cl, tap, _ = clients[0]
+            tap.replace = None
+            t = make_transport("TPlain", None, None)
+
+            def call():
+                cl.set_options(transport=t, location=val, headers={})
+                cl.service.f("x")
+                return val
+            ur = ures_of(call)
+        lit = "[" + ";".join(str(x) for x in units) + "]%N" if units else "(@nil N)"
+        ucases.append("(%s, %s, %s, %s)" % (lit, cbool(attempted), ur, cN(server.conns)))
+        umeta.append((mode, as_bytes, val.hex() if as_bytes else val, ur, server.conns))
+        ck.seen(("url", mode, as_bytes, val), nontrivial=not ascii_)
+        ck.count("url-%s-%s" % (mode, "ascii" if ascii_ else "non-ascii"))
+    ck.sample({"url": umeta[1][2], "mode": umeta[1][0], "result": umeta[1][3], "connections": umeta[1][4]})
+    resu = ck.run_cases("url", PRE, "ucase", ucases, ["url_agrees", "url_spec_ok"], shard=400)
+    for i in resu["url_spec_ok"]:
+        m = umeta[i]
+        ck.failing_input("C15:non-ascii-url", "URL %r (%s): %s, %d connection(s) reached the server"
+                         % (m[2], m[0], m[3], m[4]), {"family": "url", "mode": m[0], "bytes": m[1], "url": m[2]})
+    bad = [umeta[i] for i in resu["url_agrees"] if i not in set(resu["url_spec_ok"])]
+    if bad:
+        disagree["urls"] = [list(m) for m in bad[:5]]
+
+    # ---- 6. timeouts ---------------------------------------------------------------
+    tcases, tmeta = [], []
+    rts = [None, 0, 0.0, 1, 5, 0.25, 90, 120.5, 0.001, 3600]
+    ots = [None, 1, 30.5, 7, 90, 0.5]
+    combos = [(m, rt, ot) for m in ("MSend", "MOpen", "client") for rt in rts for ot in ots]
+    for m, rt, ot in combos:
+        if m == "client" and not clients:
+            continue
+        kind = rng.choice(KINDS)
+        t = make_transport(kind, None, None)
+        if ot is not None:
+            t.options.timeout = ot
+        exc = _Sent()
+        op = _Raise(exc=exc)
+        t.urlopener = op
+        if m == "MSend":
+            res = classify(lambda: t.send(Request(url, b"<m/>", rt)))
+        elif m == "MOpen":
+            res = classify(lambda: t.open(Request(url, None, rt)))
+        else:
+            cl, tap, _ = clients[1]
+            tap.replace = None
+
+            def call():
+                cl.set_options(transport=t, location=url, headers={})
+                return cl.service.f("x", **({"__timeout": rt} if rt is not None else {}))
+            res = classify(call)
+        used = op.timeout
+        used_ms = ms(used) if isinstance(used, (int, float)) and not isinstance(used, bool) else -1
+        if not (res[0] == "exc" and res[1] is exc):
+            used_ms = -2     # the opener's exception did not reach the caller unchanged
+        tcases.append("(%s, %s, %s, %s)" % ("MOpen" if m == "MOpen" else "MSend",
+                                            copt(cZ(ms(rt)) if rt is not None else None, "Z"),
+                                            cZ(ms(ot if ot is not None else 90)), cZ(used_ms)))
+        tmeta.append((m, rt, ot, used, repr(res[:2])[:80]))
+        ck.seen(("tmo", m, rt, ot, kind), nontrivial=rt is not None)
+        ck.count("timeout-choice")
+    rest = ck.run_cases("tmo", PRE, "tcase", tcases, ["tmo_agrees", "tmo_spec_ok"], shard=400)
+    for i in rest["tmo_spec_ok"]:
+        m = tmeta[i]
+        ck.failing_input("C15:timeout-choice", "request timeout %r, transport timeout %r (%s): urllib was given %r"
+                         % (m[1], m[2], m[0], m[3]), {"family": "tmo", "case": [m[0], m[1], m[2]]})
+    bad = [tmeta[i] for i in rest["tmo_agrees"] if i not in set(rest["tmo_spec_ok"])]
+    if bad:
+        disagree["timeouts"] = [list(map(repr, m)) for m in bad[:5]]
+
+
+# ---------------------------------------------------------------------------
+# replay
+# ---------------------------------------------------------------------------
+
+def replay(ck, payload):
+    common.force_repo_path()
+    cache_https_context()
+    print(payload.get("what"))
+    fam = payload.get("family")
+    if fam == "cred":
+        h = impl_authorization(payload["user"], payload["pw"])
+        print("credentials:", repr(payload["user"]), repr(payload["pw"]))
+        print("impl now   :", h, "(was %r)" % payload.get("header"))
+        import base64
+        try:
+            print("standard decoder:", base64.b64decode(h[6:], validate=True).decode("utf-8").partition(":")[::2])
+        except Exception as e:   # noqa
+            print("standard decoder rejects it:", repr(e))
+    elif fam == "session":
+        server = Loopback()
+        server.start()
+        s = session_from_payload(payload)
+        clients = make_clients() if any(st["via"] is not None for st in s["steps"]) else []
+        for st, ob in zip(s["steps"], run_session(server, s, clients)):
+            print("request :", st["path"], st["hdrs"], "%d body bytes" % len(ob["msg"]), "-> scripted",
+                  st["status"], st["ce"], "%d bytes" % len(st["body"]), st["cookies"])
+            print("observed:", describe_obs(ob))
+    else:
+        print("input:", {k: v for k, v in payload.items() if k not in ("what", "replay_cmd")})
+        print("re-run ./check C15 to re-evaluate this family (it is enumerated, not sampled)")
+    return 0
